@@ -89,6 +89,38 @@ def run(ctx):
         hs3 = [h for h in hs if len(h["calls"]) == 3]
         replay(ctx, hs3, tiny, ["kepler", "sgp4", "cw", "ephem"])
         replay(ctx, rnd.sample(hs3, min(len(hs3), 300)), tiny, ["keplernum"])
+    # ---- (C) live generators of two independent orbits, interleaved (Interleave.tla) -----------------------------------------
+    iconst = {"Ranges": seqs([(0, 6, 2), (3, -3, 3)] if not thorough else [(0, 6, 2), (3, -3, 3), (-2, 5, 4)]),
+              "PropTimes": {1} if not thorough else {1, -4}, "MaxLen": 5 if not thorough else 6}
+    n3, mc3, cl3 = tlcmod.wrap("Interleave", iconst)
+    cfg3 = "SPECIFICATION Spec\n" + cl3 + "INVARIANT Consistent\nCHECK_DEADLOCK FALSE\n"
+    r3 = ctx.tlc(n3, label="interleavings of two orbits' generators", cfg_text=cfg3, extra_files={n3 + ".tla": mc3}, workers=16, dump=True,
+                 dump_only=["hist"], timeout=2400)
+    ih = [[list(a) for a in st["hist"]] for st in r3.dump if len(st["hist"]) == iconst["MaxLen"]]
+
+    def interleaved(h):
+        opened = set()
+        others_used = {1: False, 2: False}
+        for a in h:
+            if a[0] == "open":
+                opened.add(a[1])
+                others_used[a[1]] = False
+            elif a[0] == "next" and others_used[a[1]]:
+                return True
+            if a[0] in ("next", "prop", "open"):
+                for o in opened:
+                    if o != a[1]:
+                        others_used[o] = True
+        return False
+    ih = [h for h in ih if interleaved(h)]
+    cap = 1200 if not thorough else 8000
+    if len(ih) > cap:
+        ih = rnd.sample(ih, cap)
+        ctx.extra.setdefault("sampled", {})["interleavings"] = cap
+    kinds_i = ["kepler-name", "j2-name", "sgp4", "none-name", "kepler-own", "j2-own"]
+    payloads = [{"kinds": [k], "hists": ih[i::3]} for k in kinds_i for i in range(3) if ih[i::3]]
+    for res in ctx.harness_parallel("interleave_replay.py", payloads, procs=16, timeout=3000):
+        ctx.absorb(res)
     # ---- the repository's own test-suite, trace-validated (SuiteTrace.tla / RoutingTrace.tla) -----------------------------
     from checks import suite
     suite.run(ctx, "C08", "iter")
